@@ -118,6 +118,21 @@ def run(chk):
                         rc = R.req("POST", path, query={"uploadId": uid}, body=("<CompleteMultipartUpload><Part><PartNumber>1</PartNumber><ETag>%s</ETag></Part></CompleteMultipartUpload>" % petag).encode())
                         if rc.status != 200 or classify(R.req("GET", path)) != ("write", new):
                             problems.append("the multipart upload cannot be completed after the restart (%d %s)" % (rc.status, rc.code))
+                    if versioned and state in ("old", "new") and opname in ("put-overwrite", "copy", "multipart-overwrite"):
+                        # ---- (b1) the current version, its metadata replaced in place, is archived as it is by the next overwrite
+                        c1_ = classify(R.req("GET", path))
+                        wcur = c1_[1] if c1_[0] == "write" else None
+                        hd_ = dict(write_headers(wcur if wcur is not None else 0)); hd_.update({"x-amz-copy-source": "%s/%s" % (bk, key), "x-amz-metadata-directive": "REPLACE", "x-amz-tagging-directive": "REPLACE", "x-amz-meta-gen": "2"})
+                        rs_ = R.req("PUT", path, headers=hd_) if wcur is not None else R.req("HEAD", path + "-none")
+                        hv_ = R.req("HEAD", path); cid_ = hv_.headers.get("x-amz-version-id")
+                        nw_ = 800000 + nb[0]
+                        rp2_ = R.req("PUT", path, body=body_of(nw_), headers=write_headers(nw_))
+                        if rs_.status == 200 and rp2_.status == 200 and cid_:
+                            ga_ = R.req("GET", path, query={"versionId": cid_})
+                            if ga_.status != 200 or ga_.body != body_of(wcur) or e2e.meta_of(ga_.headers).get("gen") != "2":
+                                problems.append("after the restart the current version had its metadata replaced (self-copy, acknowledged) and was then overwritten (acknowledged): read by its id it answers %d with %s and metadata %r, not the replaced metadata" % (
+                                    ga_.status, "its own bytes" if ga_.body == body_of(wcur) else "other bytes", e2e.meta_of(ga_.headers)))
+                        lv = R.req("GET", "/" + bk, query={"versions": "", "prefix": key})
                     if versioned and state in ("old", "new") and lv.status == 200 and lv.xml() is not None:
                         # ---- (b2) the current version can be deleted by its id, and is then gone
                         cur = [x.findtext("VersionId") for x in lv.xml().findall("Version") if x.findtext("IsLatest") == "true"]
